@@ -238,10 +238,10 @@ Qed.
 Lemma mul_le_es a b es : 0 < es -> a <= b -> a * es <= b * es.
 Proof. intros. nia. Qed.
 
-Theorem append_spec_lemma es h s src num h' r ovl :
+Theorem append_spec_lemma fixed es h s src num h' r ovl :
   0 < es -> 0 <= num -> slen s + num < 2 ^ 63 -> scap s < 2 ^ 63 ->
   wf_slice es h s -> src_ok h src (num * es) ->
-  slice_append es h s src num = (h', r, ovl) ->
+  slice_append_gen fixed es h s src num = (h', r, ovl) ->
   slen r = slen s + num
   /\ rd h' (sdata r) (slen r * es) = rd h (sdata s) (slen s * es) ++ src_read h src (num * es)
   /\ wf_slice es h' r
@@ -254,7 +254,7 @@ Theorem append_spec_lemma es h s src num h' r ovl :
         sdata r = mkP (length h) 0 /\ length h' = S (length h) /\ slen r <= scap r)
   /\ (forall id, (id < length h)%nat -> id <> pid (sdata r) -> blk h' id = blk h id).
 Proof.
-  intros Hes Hnum Hbig Hcapb ((Hl0 & Hl1) & F) Hsrc. unfold slice_append.
+  intros Hes Hnum Hbig Hcapb ((Hl0 & Hl1) & F) Hsrc. unfold slice_append_gen.
   destruct (Z.eqb_spec es 0); try lia.
   unfold grow_slice. destruct (Z.ltb_spec (scap s) (slen s + num)) as [Hg|Hg].
   - (* a new backing array *)
@@ -286,7 +286,7 @@ Proof.
     assert (Fd : fits h2 (advance p (slen s * es)) (Z.of_nat (length data))).
     { apply fits_wr. rewrite Ep. unfold fits, advance; cbn [pid poff]. rewrite Bnew, repeat_length, Ldata.
       repeat split; try lia; nia. }
-    intros [= <- <- <-]. cbn [slen scap sdata]. unfold memcpy, memmove. fold data.
+    intros [= <- <- <-]. cbn [slen scap sdata]. unfold memmove. fold data.
     split; [reflexivity|]. split.
     { (* contents *)
       pose proof (rd_wr_upto h2 (advance p (slen s * es)) data 0 Fd) as R.
@@ -308,7 +308,7 @@ Proof.
     destruct F as (F0 & F1 & F2).
     assert (Fd : fits h (advance (sdata s) (slen s * es)) (Z.of_nat (length data))).
     { unfold fits, advance; cbn [pid poff]. rewrite Ldata. repeat split; auto; nia. }
-    intros [= <- <- <-]. cbn [slen scap sdata]. unfold memcpy, memmove. fold data.
+    intros [= <- <- <-]. cbn [slen scap sdata]. unfold memmove. fold data.
     split; [reflexivity|]. split.
     { pose proof (rd_wr_upto h (advance (sdata s) (slen s * es)) data (poff (sdata s)) Fd) as R.
       cbn [advance pid poff] in R.
@@ -326,25 +326,63 @@ Proof.
     intros id Hid Hne. apply blk_wr_other. cbn. auto.
 Qed.
 
-(* zero-size elements: the argument comes back unchanged (finding F2) *)
-Lemma append_zero_size_same h s src num : slice_append 0 h s src num = (h, s, false).
+(* zero-size elements before the repair: the argument came back unchanged (F2) *)
+Lemma append_zero_size_same h s src num : slice_append_gen false 0 h s src num = (h, s, false).
 Proof. reflexivity. Qed.
 
 Lemma append_zero_size_witness :
   exists h s src num, wf_slice 0 h s /\ src_ok h src (num * 0) /\ 0 < num /\
-    slen (snd (fst (slice_append 0 h s src num))) <> slen s + num.
+    slen (snd (fst (slice_append_gen false 0 h s src num))) <> slen s + num.
 Proof.
   exists heap0, nils, (SrcBytes []), 1. unfold wf_slice, fits. cbn. intuition lia.
 Qed.
 
-(* the memcpy contract: never broken when the slice grows, but broken in place *)
-Lemma append_grow_no_overlap es h s src num :
-  0 < es -> wf_slice es h s -> src_ok h src (num * es) -> scap s < slen s + num ->
-  snd (slice_append es h s src num) = false.
+(* zero-size elements, the code that exists: the length grows by num, cap
+   follows when needed, no byte of memory changes, a non-empty result is not
+   nil, and nothing is allocated when the capacity suffices *)
+Lemma append_zero_size_lemma h s src num h' r ovl :
+  0 <= num -> wf_slice 0 h s ->
+  slice_append_gen true 0 h s src num = (h', r, ovl) ->
+  slen r = slen s + num
+  /\ slen r <= scap r
+  /\ wf_slice 0 h' r
+  /\ ovl = false
+  /\ (forall id, (id < length h)%nat -> blk h' id = blk h id)
+  /\ (slen s + num <= scap s -> h' = h /\ sdata r = sdata s /\ scap r = scap s)
+  /\ (scap s < slen s + num -> is_nil (sdata r) = false).
 Proof.
-  intros Hes (_ & F) Hs Hg. unfold slice_append. destruct (Z.eqb_spec es 0); try lia.
+  intros Hnum ((L0 & L1) & (F0 & F1 & F2)). unfold slice_append_gen. cbn [Z.eqb].
+  destruct (Z.ltb_spec (scap s) (slen s + num)) as [Hg|Hg].
+  - destruct (is_nil (sdata s)) eqn:N.
+    + cbn [alloc]. intros [= <- <- <-]. cbn [slen scap sdata].
+      split; [reflexivity|]. split; [lia|]. split.
+      { unfold wf_slice, fits; cbn [slen scap sdata pid poff]. split; [lia|]. split; [lia|]. split.
+        - unfold blk. rewrite app_nth2 by lia. rewrite Nat.sub_diag. cbn. lia.
+        - rewrite app_length. cbn. lia. }
+      split; [reflexivity|]. split.
+      { intros id Hid. unfold blk. now rewrite app_nth1. }
+      split; [intros; lia|].
+      intros _. unfold is_nil; cbn [pid]. destruct (length h) eqn:E; [lia|reflexivity].
+    + intros [= <- <- <-]. cbn [slen scap sdata].
+      split; [reflexivity|]. split; [lia|]. split.
+      { unfold wf_slice, fits; cbn [slen scap sdata]. repeat split; lia. }
+      split; [reflexivity|]. split; [auto|]. split; [intros; lia|]. auto.
+  - intros [= <- <- <-]. cbn [slen scap sdata].
+    split; [reflexivity|]. split; [lia|]. split.
+    { unfold wf_slice, fits; cbn [slen scap sdata]. repeat split; lia. }
+    split; [reflexivity|]. split; [auto|]. split; [auto|]. intros; lia.
+Qed.
+
+(* the memcpy contract before the repair: never broken when the slice grew, but
+   broken by in-place appends; with memmove there is no contract to break *)
+Lemma append_grow_no_overlap fixed es h s src num :
+  0 < es -> wf_slice es h s -> src_ok h src (num * es) -> scap s < slen s + num ->
+  snd (slice_append_gen fixed es h s src num) = false.
+Proof.
+  intros Hes (_ & F) Hs Hg. unfold slice_append_gen. destruct (Z.eqb_spec es 0); try lia.
   unfold grow_slice. destruct (Z.ltb_spec (scap s) (slen s + num)); try lia.
   destruct (alloc h _) as [h1 p] eqn:EA. cbn [snd sdata].
+  destruct fixed; auto.
   assert (Ep : p = mkP (length h) 0) by (unfold alloc in EA; congruence). subst p.
   destruct src as [q|bs]; cbn; auto. destruct Hs as (_ & _ & Hq).
   unfold overlap; cbn [pid poff advance].
@@ -353,11 +391,18 @@ Qed.
 
 Lemma append_overlap_witness :
   exists es h s src num, 0 < es /\ wf_slice es h s /\ src_ok h src (num * es) /\
-    slen s + num <= scap s /\ snd (slice_append es h s src num) = true.
+    slen s + num <= scap s /\ snd (slice_append_gen false es h s src num) = true.
 Proof.
   (* insert idiom: append(x[:2], x[1:3]...) on a block of 8 bytes *)
   exists 1, [[]; [1; 2; 3; 0; 0; 0; 0; 0]], (mkS (mkP 1 0) 2 8), (SrcPtr (mkP 1 1)), 2.
   unfold wf_slice, fits, src_ok, fits. cbn. intuition lia.
+Qed.
+
+Lemma append_fixed_no_contract es h s src num : snd (slice_append_gen true es h s src num) = false.
+Proof.
+  unfold slice_append_gen. destruct (es =? 0).
+  - destruct (scap s <? slen s + num); [destruct (is_nil (sdata s))|]; reflexivity.
+  - destruct (grow_slice es h s num). reflexivity.
 Qed.
 
 (* ---------- copy ---------- *)
